@@ -415,7 +415,21 @@ class Controller:
         return await f
 
 
+class _Dev:
+    name = "dev"
+    parent = None
+
+    def stage(self):
+        return [self]
+
+    def unstage(self):
+        return [self]
+
+
+_DEV = _Dev()
+
 MESSAGES = {
+    "stage": lambda: Msg("stage", _DEV), "unstage": lambda: Msg("unstage", _DEV),
     "custom": lambda: Msg("custom"), "custom_async": lambda: Msg("custom_async"), "null": lambda: Msg("null"),
     "checkpoint": lambda: Msg("checkpoint"), "clear_checkpoint": lambda: Msg("clear_checkpoint"),
     "rewindable_off": lambda: Msg("rewindable", None, False), "rewindable_on": lambda: Msg("rewindable", None, True),
@@ -452,7 +466,7 @@ def run_native(decisions, msgs):
         RE = RunEngine({}, loop=ctl.loop, context_managers=[], during_task=DuringTask())
         RE.register_command("custom", ctl.custom)
         RE.register_command("custom_async", ctl.custom_async)
-        RE.subscribe(lambda name, doc: docs.append((name, dict(doc))))
+        RE.subscribe(lambda name, doc: docs.append((name, dict(doc), ctl.trace[-1][:2] == ("msg", "close_run") if ctl.trace else False)))
         RE.msg_hook = ctl.on_msg
         RE.state_hook = ctl.on_state
         ctl.RE = RE
@@ -579,6 +593,33 @@ def _violations(obligation, res):
         for c in res["calls"]:
             if c["call"] in ("__call__", "resume") and c["outcome"] == "ok" and c["state"] == "idle" and pending and quiet and not c["deferred"]:
                 bad.append("the plan completed with a deferred pause pending, but deferred_pause_requested reads False afterwards")
+    elif tag.startswith("ensures[a run still open at the end is closed with the exit status"):
+        reqs = [x[1] for x in res["log"] if x[0] == "request"] + [c["call"] for c in res["calls"] if c["call"] in ("abort", "stop", "halt")]
+        allowed = {}
+        if "stop" in reqs:
+            allowed["success"] = "RE.stop()"
+        if "abort" in reqs or "halt" in reqs:
+            allowed["abort"] = "RE.abort() / RE.halt()"
+        if any(c.get("doomed") for c in res["calls"]):
+            allowed["abort"] = "pause / suspension in a non-resumable section"
+        pe = res.get("plan_exc")
+        control = isinstance(pe, (RequestAbort, FailedPause, asyncio.CancelledError)) or pe is RequestStop or pe is PlanHalt or isinstance(pe, GeneratorExit)
+        last_plan = [c["plan"] for c in res["calls"] if c["plan"]][-1:] or [None]
+        if last_plan[0] == "returned":
+            allowed["success"] = "normal completion"
+        if last_plan[0] == "raised" and pe is not None and not control:
+            allowed["fail"] = "unhandled exception"
+        for d in res["docs"]:
+            if d[0] != "stop" or (len(d) > 2 and d[2]):
+                continue          # (runs the plan closed itself carry the status current at that time)
+            st, reason = d[1].get("exit_status"), d[1].get("reason", "")
+            ok = st in allowed
+            if ok and st == "fail":
+                ok = reason == (str(pe.args[0]) if len(pe.args) == 1 else "")
+            if ok and st == "abort" and set(reqs) & {"abort", "stop", "halt"} == {"abort"} and not any(c.get("doomed") for c in res["calls"]):
+                ok = reason == "because"
+            if not ok:
+                bad.append(f"the engine closed a run with exit_status={st!r} reason={reason!r}; licensed: {allowed}, plan {last_plan[0]}, requests {reqs}")
     elif tag.startswith("invariant[the cache holds exactly") or tag.startswith("requires[what is handed to the rewind"):
         bad.extend(res.get("c04_bad", []))
     elif "no checkpoint in effect never leaves the engine paused" in tag or "no further plan message is executed before the plan's cleanup" in tag:
